@@ -24,7 +24,7 @@ ASSUMPTIONS = ["native/foreign classification comes from the generator, never fr
                "data() is compared without identifiers (uuid=False)"]
 REQUIRED = ["native_fixpoint", "foreign_converged", "normalised_input", "acl_level", "config_level",
             "remark_tricky", "setter_fixpoint",
-            "name_as_data_ok"]
+            "name_as_data_ok", "members_as_data_ok"]
 
 
 def describe(tier, seed):
@@ -332,7 +332,46 @@ def _addrgroup(unit, ctx):
                         _config_level("addrgroups", o.line, dict(platform=plat, indent=indent), ctx)
     if not numbered:
         _names_given_as_data(plat, ctx)
+        if plat == "ios":
+            # (prefix notation exported on NX-OS is an accepted foreign spelling on IOS; the other
+            # direction is not: "A M" means wildcard bits on NX-OS)
+            _members_given_as_data(plat, ctx)
     ctx.sample("addrgroup", dict(platform=plat, numbered=numbered))
+
+
+def _members_given_as_data(plat, ctx):
+    """A group whose members are given as a mixture of strings and DICTIONARIES exported on the
+    other platform (a dictionary is re-read for the group's platform): the rendered text is native
+    and a fixed point."""
+    from cisco_acl import AddrGroup, AddressAg
+
+    other = "nxos" if plat == "ios" else "ios"
+    foreign = ["10.1.0.0/24", "host 10.1.1.1", "10.2.0.0/16"] if other == "nxos" else \
+        ["10.1.0.0 255.255.255.0", "host 10.1.1.1", "10.2.0.0 255.255.0.0"]
+    own = "host 10.9.9.9"
+    for n in (1, 2, 3):
+        for combo in product(range(len(foreign)), repeat=n):
+            for pos in range(n + 1):
+                ctx.ev()
+                items = [AddressAg(foreign[i], platform=other).data() for i in combo]
+                items.insert(pos, own)
+                case = dict(kind="generic", cls="AddrGroup(items=str+dict)", input=[foreign[i] for i in combo],
+                            kwargs=dict(platform=plat, pos=pos), native=True)
+                try:
+                    grp = AddrGroup(name="G", platform=plat, items=items)
+                    l1 = grp.line
+                    again = AddrGroup(l1, platform=plat)
+                    mem = Reader(plat).read_addrgroup(l1)["members"]
+                except (ValueError, TypeError, Reject) as ex:
+                    ctx.viol("AddrGroup:members_from_dictionaries:rejected_or_not_native", case, repr(ex),
+                             "native text accepted again")
+                    continue
+                if again.line != l1 or again.data() != AddrGroup(l1, platform=plat).data() or \
+                        len(mem) != n + 1 or [m.line for m in again.items] != [m.line for m in grp.items]:
+                    ctx.viol("AddrGroup:members_from_dictionaries:not_a_fixed_point", dict(case, l1=l1),
+                             again.line, l1)
+                else:
+                    ctx.out("members_as_data_ok")
 
 
 def _names_given_as_data(plat, ctx):
